@@ -613,6 +613,69 @@ fn prepared_for(rec: &mut Rec, cfg: KeyCfg) {
     }
 }
 
+/// PST13 parameters and trimmed keys: table sizes, the chain of every variable's hiding powers, and
+/// trim for every supported degree (the monomial key set itself is C15's subject).
+pub fn pst_srs(rec: &mut Rec, nvmax: usize, dmax: usize) {
+    for nv in 1..=nvmax {
+        for d in 1..=dmax {
+            let id = format!("PST/setup/nv={}/D={}", nv, d);
+            if !rec.take(&id) {
+                continue;
+            }
+            rec.dim("scheme", "PST");
+            let cfg = KeyCfg::mv(nv, d, d);
+            let pp = match SPst::setup(&cfg, rec.seed) {
+                Ok(pp) => pp,
+                Err(o) => {
+                    viol(rec, "PST", "setup/in-range-refused", &id, format!("setup({}, {}) failed: {}", d, nv, o.short()));
+                    continue;
+                }
+            };
+            let mut bad = String::new();
+            if pp.num_vars != nv || pp.max_degree != d || pp.beta_h.len() != nv || pp.powers_of_gamma_g.len() != nv {
+                bad = format!("num_vars {}, max_degree {}, {} beta_h, {} gamma tables for setup({}, {})", pp.num_vars, pp.max_degree, pp.beta_h.len(), pp.powers_of_gamma_g.len(), d, nv);
+            } else {
+                for i in 0..nv {
+                    let t = &pp.powers_of_gamma_g[i];
+                    if t.len() != d + 1 {
+                        bad = format!("variable {}: {} hiding powers instead of max_degree + 1 = {}", i, t.len(), d + 1);
+                        break;
+                    }
+                    rec.count_points(t.len() as u64);
+                    if !pair_eq(t[0], pp.h, pp.gamma_g, pp.beta_h[i]) || (0..d).any(|j| !pair_eq(t[j + 1], pp.h, t[j], pp.beta_h[i])) {
+                        bad = format!("variable {}: the hiding powers are not gamma*beta_{}^k G", i, i);
+                        break;
+                    }
+                }
+            }
+            rec.class(if bad.is_empty() { "srs-consistent" } else { "srs-inconsistent" });
+            if !bad.is_empty() {
+                viol(rec, "PST", "setup/srs", &id, bad);
+                continue;
+            }
+            for s in 1..=d {
+                let mut c2 = cfg.clone();
+                c2.sup = s;
+                c2.hid = s;
+                rec.count_points(1);
+                match SPst::trim(&pp, &c2) {
+                    Err(o) => {
+                        rec.class("trim-refused");
+                        viol(rec, "PST", "trim/refuses-in-range", &id, format!("trim({}) refused within max_degree {}: {}", s, d, o.short()));
+                    }
+                    Ok((ck, vk)) => {
+                        rec.class("trim-served");
+                        let ok = ck.supported_degree == s && ck.max_degree == d && ck.num_vars == nv && ck.powers_of_gamma_g.len() == nv && (0..nv).all(|i| ck.powers_of_gamma_g[i][..] == pp.powers_of_gamma_g[i][..=s]) && vk.beta_h == pp.beta_h && vk.h == pp.h && vk.g == pp.powers_of_g[&<ark_poly::multivariate::SparseTerm as ark_poly::multivariate::Term>::new(vec![])] && vk.gamma_g == pp.gamma_g;
+                        if !ok {
+                            viol(rec, "PST", "trim/unfaithful", &id, format!("trim({}) does not copy the parameters' elements (degrees, hiding powers 0..={} per variable, verifier elements)", s, s));
+                        }
+                    }
+                }
+            }
+        }
+    }
+}
+
 /// MultilinearPC and streaming parameters.
 pub fn other_srs(rec: &mut Rec, nvmax: usize) {
     for nv in 1..=nvmax {
@@ -748,4 +811,5 @@ pub fn run(rec: &mut Rec) {
     interop::<SIpa>(rec);
     prepared(rec);
     other_srs(rec, if t { 8 } else { 6 });
+    pst_srs(rec, if t { 5 } else { 3 }, if t { 6 } else { 4 });
 }
